@@ -87,7 +87,8 @@ pub fn world_weighted() -> World {
         c("user_id", ColTy::Int(0, 50)), c("place", ColTy::Float(0.0, 1000.0)), c("spent", ColTy::Float(0.0, 100.0)), c("w", ColTy::Float(0.5, 3.0))] });
     let relations: Hierarchy<Arc<Relation>> = specs.iter().flat_map(|t| {
         let schema: Schema = t.cols.iter().map(|c| {
-            if c.unique { (c.name, col_type(&c.ty), Some(Constraint::Unique)) } else { (c.name, col_type(&c.ty), None) }
+            // the unit column of visits is declared as a foreign key (a constraint that is not a uniqueness constraint)
+            if c.unique { (c.name, col_type(&c.ty), Some(Constraint::Unique)) } else if t.name == "visits" && c.name == "user_id" { (c.name, col_type(&c.ty), Some(Constraint::ForeignKey)) } else { (c.name, col_type(&c.ty), None) }
         }).collect();
         let rel: Arc<Relation> = Arc::new(Relation::table().name(t.name).path([t.path]).schema(schema).size(t.size).build());
         vec![(vec![t.name.to_string()], rel.clone()), (vec![t.path.to_string()], rel)]
